@@ -459,14 +459,14 @@ EXPECTED_PROBES = {
     "C03": ["cancel-during-send", "node.stalled", "node.nested-send", "node.nested-send-same-type", "send.foreign-context-type"],
     "C08": ["fs.external-rename", "fs.crashed", "fs.rotated", "fs.huge-event"],
     "C06": ["enum.exhausted"],
-    "C11": ["gate.expired-group", "gate.flushall-many-groups", "enum.exhausted", "gate.broker-field-changed"],
+    "C11": ["gate.expired-group", "gate.flushall-many-groups", "enum.exhausted", "gate.broker-field-changed", "gate.backlog-flush-run"],
     "C12": ["reentry.process", "reentry.close", "reentry.reopen", "reentry.send-cancelled", "reentry.file-pipeline"],
     "C13": ["channel.room-fast-path", "channel.error", "fs.retry-after-failed-write", "writer.panicked"],
     "C14": ["json.unencodable", "json.context-done"],
     "C15": ["fs.model-rotation", "fs.external-rename", "fs.directory-removed-silently"],
-    "C16": ["encrypt.rotated", "encrypt.recurring-event-id"],
+    "C16": ["encrypt.rotated", "encrypt.recurring-event-id", "encrypt.rekeyed-in-place"],
     "C17": ["gate.expired-group", "gate.flushall-many-groups", "enum.exhausted", "gate.broker-field-changed", "gate.backlog-run", "gate.reopened", "gate.clock-stepped-back"],
-    "C18": ["ce.signer-failed", "ce.signed", "ce.signer-panicked", "ce.reconfigured"],
+    "C18": ["ce.signer-failed", "ce.signed", "ce.signer-panicked", "ce.reconfigured", "ce.second-rendering-failed"],
 }
 
 
